@@ -272,7 +272,131 @@ Proof.
     + dxs. rewrite hext_set_gradient by (unfold embT; discriminate).
       rewrite En, unembT_embT. cbn [obind]. dxs. cbn [Z.eqb]. dxs. eauto.
     + dxs. rewrite hext_set_gradient_nil, En. cbn [obind]. dxs. cbn [Z.eqb]. dxs. eauto.
-  - dxs. rewrite (hext_set_gradient _ _ _ Hnil), En, Hg. cbn [obind]. dxs. eauto.
-Show. Qed.
+  - dxs. rewrite (hext_set_gradient _ _ _ Hnil), En, Hg. cbn [obind]. dxs. cbn [agrees]. eauto.
+Qed.
+
+(* the main theorem: on a node id and an embedded gradient value the program IS the oracle entry "accumulateGrad" *)
+Theorem accumulateGrad_agrees fuel depth (h : heap) (n : nat) (g : T) :
+  (n < length h)%nat ->
+  let args := [DI (Z.of_nat n); embT g] in
+  agrees (drun fapp heap (hext rd) g_accumulateGrad fuel depth args h) (hext rd "accumulateGrad" args h).
+Proof. intros _ args. subst args. apply (accumulateGrad_general _ _ _ _ _ g). apply unembT_embT. Qed.
+
+(* what the program does, in terms of the model's [accumulate] *)
+Theorem accumulateGrad_run fuel depth (h : heap) (n : nat) (g : T) :
+  (n < length h)%nat ->
+  let run := drun fapp heap (hext rd) g_accumulateGrad fuel depth [DI (Z.of_nat n); embT g] h in
+  match accumulate h n g with
+  | (h', Ok _) => exists g' l', run = DRet heap [DI 0] h' g' l'
+  | (_, Err) => exists g' l', run = DRet heap [DI 1] (setGrad h n None) g' l'
+  | (_, Panic) => run = DPanic heap
+  end.
+Proof.
+  intros Hn run. subst run.
+  pose proof (accumulateGrad_agrees fuel depth h n g Hn) as H. cbv zeta in H.
+  rewrite hext_accumulateGrad, (nodeId_nat _ _ Hn), unembT_embT in H. cbn [obind] in H.
+  destruct (accumulate h n g) as [h' [[]| |]]; exact H.
+Qed.
+
+(* the model's [accumulate] leaves the heap unchanged on Err, the Go code has already stored the nil result:
+   the two final heaps differ exactly when the node had a gradient *)
+Lemma accumulate_Err_heap (h : heap) (n : nat) (g : T) h' :
+  accumulate h n g = (h', Err) -> h' = h /\ exists g0, gradOf h n = Some g0 /\ gradOf (setGrad h n None) n = None.
+Proof.
+  unfold accumulate. destruct (gradOf h n) as [g0|] eqn:Eg; [|discriminate].
+  destruct (v_arith BiAdd g0 g); try discriminate. intros E. assert (E' : h' = h) by congruence. subst h'. clear E. split; [reflexivity|].
+  exists g0. split; [reflexivity|].
+  unfold gradOf in *. destruct (nth_error h n) as [nd|] eqn:En; [|discriminate].
+  unfold setGrad, updNode.
+  assert (Hlt : (n < length h)%nat) by (apply nth_error_Some; congruence).
+  rewrite nth_error_map.
+  assert (Hc : nth_error (combine (seq 0 (length h)) h) n = Some (n, nd)).
+  { clear -En Hlt. 
+    assert (G : forall (l : list (@node A)) k i x, nth_error l i = Some x ->
+                nth_error (combine (seq k (length l)) l) i = Some ((k + i)%nat, x)).
+    { induction l as [|a l IH]; intros k [|i] x Hx; cbn in *; try discriminate.
+      - inversion Hx; subst. now rewrite Nat.add_0_r.
+      - rewrite (IH (S k) i x Hx). f_equal. f_equal. lia. }
+    now rewrite (G h 0%nat n nd En). }
+  rewrite Hc. cbn [option_map fst snd]. rewrite Nat.eqb_refl. reflexivity.
+Qed.
+
+(* ---- outside the domain the programs and the oracle entries differ (inputs the callers never build) ---- *)
+
+(* a nil gradient VALUE accumulated on a node without gradient: the Go code stores nil and returns nil, the oracle
+   entry is undefined (unembT DNil = None) *)
+Lemma accumulateGrad_nil_value fuel depth (h : heap) (n : nat) :
+  (n < length h)%nat -> gradOf h n = None ->
+  (exists g' l', drun fapp heap (hext rd) g_accumulateGrad fuel depth [DI (Z.of_nat n); DNil] h
+                 = DRet heap [DI 0] (setGrad h n None) g' l') /\
+  hext rd "accumulateGrad" [DI (Z.of_nat n); DNil] h = None.
+Proof.
+  intros Hn Eg. split.
+  - unfold drun, g_accumulateGrad. cbn [pmain dbody plocals dparams dbind]. dxs.
+    rewrite hext_get_gradient, (nodeId_nat _ _ Hn). cbn [obind]. rewrite Eg. dxs.
+    rewrite hext_set_gradient_nil, (nodeId_nat _ _ Hn). cbn [obind]. dxs. eauto.
+  - rewrite hext_accumulateGrad, (nodeId_nat _ _ Hn). reflexivity.
+Qed.
+
+(* anyIsBPDirty returns at the first dirty tensor without looking at the rest; the oracle entry decodes the whole list *)
+Lemma anyIsBPDirty_early fuel depth (h : heap) (n : nat) (rest : list dval) :
+  (n < length h)%nat -> dirtyOf h n = true ->
+  exists g l, drun fapp heap (hext rd) g_anyIsBPDirty fuel depth [DL (DI (Z.of_nat n) :: rest)] h
+              = DRet heap [DB true] h g l.
+Proof.
+  intros Hn Hd. unfold drun, g_anyIsBPDirty. cbn [pmain dbody plocals dparams dbind]. dxs.
+  cbn [drangeLoop]. dxs.
+  rewrite hext_gradContextOf, (nodeId_nat _ _ Hn). cbn [obind]. dxs.
+  rewrite hext_get_bpdirty, (nodeId_nat _ _ Hn). cbn [obind]. rewrite Hd. dxs. eauto.
+Qed.
 
 End HeapAcc.
+
+Print Assumptions unemb_emb.
+Print Assumptions unembT_embT.
+Print Assumptions nodeId_nat.
+Print Assumptions anyIsBPDirty_hext.
+Print Assumptions nonIsTracked_hext.
+Print Assumptions anyIsBPDirty_run.
+Print Assumptions nonIsTracked_run.
+Print Assumptions anyIsBPDirty_agrees.
+Print Assumptions nonIsTracked_agrees.
+Print Assumptions accumulateGrad_general.
+Print Assumptions accumulateGrad_agrees.
+Print Assumptions accumulateGrad_run.
+Print Assumptions accumulate_Err_heap.
+Print Assumptions accumulateGrad_nil_value.
+Print Assumptions anyIsBPDirty_early.
+
+(* concrete runs over the free term algebra: one node holding a gradient of shape [2] *)
+Definition ex_t2 (a b : nat) : tensor term := mkT [2%nat] (Vec [Sc (TVal 0 a); Sc (TVal 0 b)]).
+Definition ex_heap : @heap term := [mkNode (ex_t2 0 1) true true (Some (ex_t2 2 3)) [] None;
+                                    mkNode (ex_t2 0 1) false false None [] None].
+Definition ex_fapp : string -> list term -> option term := fun _ _ => None.
+
+(* shapes agree: the sum is stored, nil error *)
+Example accumulate_example_ok :
+  match drun ex_fapp heap (hext RedSum) g_accumulateGrad 1 1 [DI 0; embT (ex_t2 4 5)] ex_heap with
+  | DRet _ [DI 0] h' _ _ =>
+      gradOf h' 0 = Some (mkT [2%nat] (Vec [Sc (TBin BAdd (TVal 0 2) (TVal 0 4)); Sc (TBin BAdd (TVal 0 3) (TVal 0 5))]))
+      /\ h' = fst (accumulate ex_heap 0 (ex_t2 4 5))
+  | _ => False
+  end.
+Proof. vm_compute. split; reflexivity. Qed.
+
+(* shapes differ: Add fails; the Go code has stored the nil tensor before returning the error, the model's
+   [accumulate] keeps the old gradient *)
+Example accumulate_example_err :
+  let g := mkT [3%nat] (Vec [Sc (TVal 0 4); Sc (TVal 0 5); Sc (TVal 0 6)]) in
+  match drun ex_fapp heap (hext RedSum) g_accumulateGrad 1 1 [DI 0; embT g] ex_heap with
+  | DRet _ [DI 1] h' _ _ =>
+      gradOf h' 0 = None /\ accumulate ex_heap 0 g = (ex_heap, Err) /\ gradOf ex_heap 0 = Some (ex_t2 2 3)
+  | _ => False
+  end.
+Proof. vm_compute. repeat split; reflexivity. Qed.
+
+Example flags_example :
+  (exists g l, drun ex_fapp heap (hext RedSum) g_anyIsBPDirty 1 1 [DL [DI 1; DI 0]] ex_heap = DRet heap [DB true] ex_heap g l) /\
+  (exists g l, drun ex_fapp heap (hext RedSum) g_nonIsTracked 1 1 [DL [DI 1]] ex_heap = DRet heap [DB true] ex_heap g l) /\
+  (exists g l, drun ex_fapp heap (hext RedSum) g_nonIsTracked 1 1 [DL [DI 1; DI 0]] ex_heap = DRet heap [DB false] ex_heap g l).
+Proof. vm_compute. repeat split; eexists; eexists; reflexivity. Qed.
